@@ -2,6 +2,7 @@ package props
 
 import (
 	"context"
+	"errors"
 	"fmt"
 	"runtime"
 	"strings"
@@ -31,6 +32,7 @@ type CancelCase struct {
 	Entry    string `json:"entry"`              // do | plan
 	Observe  []int  `json:"observe,omitempty"`  // gated resolvers that watch the context and fail when it ends
 	StockCtx bool   `json:"stockCtx,omitempty"` // use context.WithCancel / WithDeadline instead of the harness context
+	Cause    bool   `json:"cause,omitempty"`    // with StockCtx: the cancellation / deadline carries a cause (WithCancelCause / WithDeadlineCause)
 }
 
 // manualCtx is a context whose Done channel the harness closes.
@@ -156,7 +158,18 @@ func c16Oracle(c *CancelCase) (msg string) {
 	if c.Kind == "deadline" {
 		wantErr = context.DeadlineExceeded
 	}
-	if c.StockCtx {
+	if c.StockCtx && c.Cause {
+		// the context records why it ended; the request's error is still the context's error
+		cause := errors.New("E:cause - client went away")
+		if c.Kind == "deadline" && c.CancelAt == -1 {
+			cc, cancel := context.WithDeadlineCause(context.Background(), time.Now().Add(-time.Second), cause)
+			ctx, end = cc, cancel
+		} else {
+			cc, cancel := context.WithCancelCause(context.Background())
+			ctx, end = cc, func() { cancel(cause) }
+			wantErr = context.Canceled
+		}
+	} else if c.StockCtx {
 		if c.Kind == "deadline" {
 			if c.CancelAt == -1 {
 				cc, cancel := context.WithDeadline(context.Background(), time.Now().Add(-time.Second))
@@ -389,7 +402,8 @@ func TestC16(t *testing.T) {
 		n := len(q.Gates)
 		c := &CancelCase{Query: q.Text, N: n, Kind: []string{"cancel", "deadline"}[gen.Uniform(rt, 2, "kind")], Entry: []string{"do", "plan"}[gen.Uniform(rt, 2, "entry")]}
 		c.CancelAt = gen.Uniform(rt, n+4, "cancelAt") - 1
-		c.StockCtx = gen.Chance(rt, 25, "stockCtx")
+		c.StockCtx = gen.Chance(rt, 35, "stockCtx")
+		c.Cause = c.StockCtx && gen.Chance(rt, 50, "cause")
 		for i := 0; i < n; i++ {
 			if gen.Chance(rt, 25, "observe") {
 				c.Observe = append(c.Observe, i)
